@@ -11,12 +11,14 @@ Section Safe.
   Variable read_uuid : str -> option val.
   Variable repl : str -> option val.
   Variable eval_fn : str -> option (list (str * val)) -> option val.
+  Variable vnone : val.
+  Variable has_ser : str -> str -> str -> bool.
   Variable pack : str -> str -> str -> list (str * val) -> val -> option val.
 
-  Local Notation hv := (handle_var val read_lit read_vec read_uuid repl eval_fn pack).
-  Local Notation go := (go val read_lit read_vec read_uuid repl eval_fn pack).
-  Local Notation flush := (flush val read_lit read_vec read_uuid repl eval_fn pack).
-  Local Notation from_human := (from_human val read_lit read_vec read_uuid repl eval_fn pack).
+  Local Notation hv := (handle_var val read_lit read_vec read_uuid repl eval_fn vnone has_ser).
+  Local Notation go := (go val read_lit read_vec read_uuid repl eval_fn vnone has_ser).
+  Local Notation flush := (flush val read_lit read_vec read_uuid repl eval_fn vnone has_ser).
+  Local Notation from_human := (from_human val read_lit read_vec read_uuid repl eval_fn vnone has_ser pack).
 
   Definition trace_of (r : res val) : list str :=
     match r with inl s => s_trace val s | inr t => t end.
@@ -32,8 +34,8 @@ Section Safe.
     - cbn. exact Hs.
     - destruct (if str_eqb op [EQ] then _ else _) as [x|]; [|exact Hs].
       destruct (s_cur val s) as [b|]; [|exact Hs].
-      destruct (if mem BAR op then _ else _) as [y|]; [|exact Hs].
-      cbn. exact Hs.
+      destruct (mem BAR op); [|cbn; exact Hs].
+      destruct (has_ser _ _ _); cbn; exact Hs.
   Qed.
 
   Lemma dispatch_safe_trace : forall (k : option (str * str * str) -> st val -> res val) l s,
@@ -43,7 +45,7 @@ Section Safe.
     intros k l s Hk Hs. unfold dispatch.
     destruct (is_comment l); [apply Hk; exact Hs|].
     destruct (starts_with LBR l).
-    - destruct (block_name l); [apply Hk; exact Hs | exact Hs].
+    - destruct (block_name l); [|exact Hs]. destruct (empty_marker l); apply Hk; exact Hs.
     - destruct (expr_match l); [apply Hk; exact Hs | exact Hs].
   Qed.
 
@@ -69,8 +71,8 @@ Section Safe.
     destruct (drop_while is_comment (prep txt)) as [|h rest]; [reflexivity|].
     destruct (header h) as [[[d n] f]|]; [|reflexivity].
     match goal with |- context [go true rest None ?s0] =>
-      pose proof (go_safe_trace rest None s0 eq_refl) as H; destruct (go true rest None s0) end;
-    exact H.
+      pose proof (go_safe_trace rest None s0 eq_refl) as H; destruct (go true rest None s0) as [s1|t] end;
+    [|exact H]. cbn in H. destruct (flush_packed _ _ _ _ _); exact H.
   Qed.
 
   (* a statement carrying a dollar in its operator raises in safe mode, before
@@ -121,7 +123,7 @@ Section Safe.
       { intros s0 H0. unfold dispatch in H0.
         destruct (is_comment l); [eapply IH; exact H0|].
         destruct (starts_with LBR l).
-        - destruct (block_name l); [eapply IH; exact H0 | reflexivity].
+        - destruct (block_name l); [|reflexivity]. destruct (empty_marker l); eapply IH; exact H0.
         - destruct (expr_match l); [eapply IH; exact H0 | reflexivity]. }
       destruct pend as [[[n op] v]|].
       + destruct (ends_with BS v); [eapply IH; exact H|].
